@@ -37,7 +37,36 @@ def apply_mods(p, dt, mt, order, pure=None):
     return p
 
 
-def get_event(i, rparts, dt, mt, order, doc, entry):
+def poke(doc, salt):
+    """the CALLER edits its own document in place (identity of the top-level object kept): a scalar somewhere is
+    replaced and a child is appended / added to some container; deterministic in `salt`"""
+    rng = random.Random(salt)
+    conts = []
+
+    def walk(x, depth):
+        if isinstance(x, (dict, list)) and depth < 6:
+            conts.append(x)
+            for v in (x.values() if isinstance(x, dict) else x):
+                walk(v, depth + 1)
+    walk(doc, 0)
+    for c in rng.sample(conts, min(2, len(conts))):
+        if isinstance(c, list):
+            if c and rng.random() < 0.5:
+                c[rng.randrange(len(c))] = rng.choice([0, 5, "zz", None, [1, 2], {"a": 1}])
+            else:
+                c.append(rng.choice([7, "a", [3], {"b": 2}]))
+        else:
+            ks = list(c)
+            if ks and rng.random() < 0.5:
+                c[rng.choice(ks)] = rng.choice([0, 5, "zz", None, [1, 2], {"a": 1}])
+            else:
+                c[rng.choice(["zz", "a", 0, "new"])] = rng.choice([7, "a", [3], {"b": 2}])
+
+
+def get_event(i, rparts, dt, mt, order, doc, entry, edit=None):
+    """edit (a salt): the path is built (bound to the document when entry is "bound") and queried once, THEN the caller
+    edits the document in place, and the recorded calls are made on the same path object: what counts is the document
+    as it is at the time of the call"""
     import valida
     import valida.datapath as dp
 
@@ -73,6 +102,10 @@ def get_event(i, rparts, dt, mt, order, doc, entry):
             return valida.Data(doc).get(*parts, return_paths=rp)
         return path.get_data(return_paths=rp)
 
+    if edit is not None:
+        outcome_of(lambda: call(True))
+        poke(doc, edit)
+        e["doc"] = enc_val(doc)
     with watch(objs=[path], docs=[doc]) as w:
         out, res = outcome_of(lambda: call(False))
         outp, resp = outcome_of(lambda: call(True))
@@ -98,10 +131,42 @@ def multi_concrete_event(i, rparts, mt):
     return e
 
 
+def long_fanout(rng):
+    """a container of 9-14 children and a fan-out part that selects a FEW of them, at least one at position >= 8 and one
+    below: the selection must come back in document order however the implementation collects it"""
+    n = rng.randint(9, 14)
+    vals = [rng.choice([0, 1, 2, 3, "a", "b", 2.5, None, True, "x3"]) if rng.random() < 0.5 else j * 10 for j in range(n)]
+    L = lambda datum, fn, *a: ("leaf", {"datum": datum, "pre": "none", "fn": fn, "actuals": list(a), "akw": {}})   # noqa: E731
+    pos = sorted(set([rng.randrange(0, 8), rng.randrange(8, n)] + [rng.randrange(n) for _ in range(rng.choice([0, 0, 1, 2]))]))
+    as_list = rng.random() < 0.55
+    if as_list:
+        cont = list(vals)
+        by = rng.choice(["index", "value"])
+        if by == "index":
+            part = {"rk": rng.choice(["list", "mol"]), "key": None, "index": L("index", "in_", pos), "value": None, "cond": None, "label": None}
+        else:
+            part = {"rk": rng.choice(["list", "mol"]), "key": None, "index": None, "value": L("value", "in_", [cont[q] for q in reversed(pos)]),
+                    "cond": None, "label": None}
+    else:
+        keys = ["k%d" % j for j in range(n)]
+        rng.shuffle(keys)
+        cont = dict(zip(keys, vals))
+        part = {"rk": rng.choice(["map", "mol"]), "key": L("key", "in_", [keys[q] for q in reversed(pos)]), "index": None, "value": None,
+                "cond": None, "label": None}
+    r = rng.random()
+    if r < 0.4:
+        return [part], cont
+    if r < 0.7:
+        return [("prim", "rows"), part], {"rows": cont, "n": 1}
+    return [("prim", 1), part], [0, cont]
+
+
 def random_cases(rng, n, modifiers):
     for _ in range(n):
         doc = gen.document(rng, depth=rng.choice([2, 3, 3, 4]), strish=0.65)
         rparts = gen.path_recipe(rng, doc)
+        if rng.random() < 0.04:
+            rparts, doc = long_fanout(rng)
         dt = mt = "none"
         order = "dm"
         if modifiers:
@@ -173,8 +238,14 @@ def run_path_check(rep, tier, seed, modifiers, label):
         for entry in entries:
             if entry == "Data_get_parts" and (dt != "none" or mt != "none"):
                 continue
+            edit = None
+            if entry in ("bound", "get_data_raw") and not _in_twin[0] and rng.random() < (0.5 if entry == "bound" else 0.1):
+                import copy as _copy
+                edit = rng.randrange(10 ** 6)
+                doc = _copy.deepcopy(doc)           # this event owns (and edits) its document
+            doc_before = to_lit(doc)
             try:
-                e = get_event(len(events) + 1, rparts, dt, mt, order, doc, entry)
+                e = get_event(len(events) + 1, rparts, dt, mt, order, doc, entry, edit=edit)
             except Unencodable:
                 rep.skipped_unencodable += 1
                 continue
@@ -183,7 +254,7 @@ def run_path_check(rep, tier, seed, modifiers, label):
                 rep.extra["unconstructible"] = rep.extra.get("unconstructible", 0) + 1
                 return
             events.append(e)
-            recipes[e["id"]] = {"rparts": to_lit(rparts), "dt": dt, "mt": mt, "order": order, "doc": to_lit(doc), "sub": isinstance(doc, (gen.ListSub, __import__("collections").OrderedDict)),
+            recipes[e["id"]] = {"rparts": to_lit(rparts), "dt": dt, "mt": mt, "order": order, "doc": doc_before, "edit": edit, "sub": isinstance(doc, (gen.ListSub, __import__("collections").OrderedDict)),
                                 "entry": entry}
             twin = retyped_twin(rparts) if not _in_twin[0] else None
             if twin is not None and entry in ("Data_get_parts", "get_data_raw", "Data_get_path"):
@@ -251,7 +322,8 @@ def replay(rep, case):
     if r.get("multi_concrete"):
         ev = [multi_concrete_event(1, rparts, r["mt"])]
     else:
-        ev = [get_event(1, rparts, r["dt"], r["mt"], r["order"], gen.subclassify(from_lit(r["doc"])) if r.get("sub") else from_lit(r["doc"]), r["entry"])]
+        ev = [get_event(1, rparts, r["dt"], r["mt"], r["order"], gen.subclassify(from_lit(r["doc"])) if r.get("sub") else from_lit(r["doc"]), r["entry"],
+                        edit=r.get("edit"))]
     res = tlc.accept("Trace_Path", "Trace_Path.cfg", ev, shards=1)
     rep.add_tlc(res, "B:Trace_Path(replay)")
     rep.traces += 1
